@@ -433,6 +433,12 @@ def opcall_source(rng, version='3.1'):
     return fill('(%s, %s)[%s]', a, b, c)
 
 
+# the clock seam: every dynamic context gets this instant as fn:current-dateTime() (the real clock would make the event
+# log of a run differ from its replay)
+import datetime as _datetime
+FIXED_NOW = _datetime.datetime(2024, 2, 29, 12, 0, 0, tzinfo=_datetime.timezone.utc)
+
+
 def valid_source(rng):
     k = rng.randrange(17)
     if k == 16:
@@ -756,12 +762,12 @@ def run_case(case, world):
                     if op.get('io') and case['config'].get('shared_ctx'):
                         # one dynamic context for all the I/O evaluations of the history (its resource caches persist)
                         if shared_ctx[0] is None:
-                            shared_ctx[0] = elementpath.XPathContext(root, variables=dict(URI_VARS))
+                            shared_ctx[0] = elementpath.XPathContext(root, variables=dict(URI_VARS), current_dt=FIXED_NOW)
                         ctx = shared_ctx[0]
                     elif op.get('io'):
-                        ctx = elementpath.XPathContext(root, variables=dict(URI_VARS))
+                        ctx = elementpath.XPathContext(root, variables=dict(URI_VARS), current_dt=FIXED_NOW)
                     else:
-                        ctx = elementpath.XPathContext(root, variables=variables)
+                        ctx = elementpath.XPathContext(root, variables=variables, current_dt=FIXED_NOW)
                     if op.get('lazy'):
                         res = [canon(x) for x in tk.select_results(ctx)]
                     else:
